@@ -179,7 +179,7 @@ var ruleFieldAnchors = map[string][]fieldAnchor{
 	"ruleIDSources":        cat(faCurrent, fa(pkgModels, "Session", "participantIDs", "entityIDs"), fa(pkgModels, "SessionStore", "ids"), fa(pkgOdal, "State", "assetInstanceIDs")),
 	"ruleRegistry":         cat(fa(pkgModels, "SessionStore", "sessions", "ids", "mutex"), fa(pkgModels, "Session", "participants", "entities", "moduleStates", "frameHandlers", "entityComponents", "participantIDs", "entityIDs")),
 	"ruleFramePair":        cat(fa(pkgModels, "Session", "closeFrameChan", "frameHandlers", "frameHandlerIDs", "frameMutex"), fa(pkgWS, "RealtimeHandler", "stopFrameHandling")),
-	"ruleFunnelOnce":       cat(fa(pkgWS, "handler", "disconnectChan"), fa(pkgWS, "handlerWithLogs", "closeSummaryWorker")),
+	"ruleFunnelOnce":       fa(pkgWS, "handler", "disconnectChan"),
 	"ruleGaugePair":        fa(pkgWS, "handlerWithMetrics", "appKey", "publicEndpoint"),
 	"ruleMainLineBlocking": cat(fa(pkgWS, "handler", "sendChan"), fa(pkgModels, "Session", "closeFrameChan")),
 	"ruleRelaySync":        fa(pkgWS, "handler", "sendChan", "sender"),
